@@ -730,6 +730,7 @@ type frame struct {
 	prev   *ssa.BasicBlock
 	visits map[int]int
 	phiOv  map[*ssa.Phi]Value // phi values fixed by if-conversion for the next block
+	defers []func()
 }
 
 // pureBlock reports whether blk (single predecessor, ends in Jump) contains only
